@@ -317,6 +317,9 @@ func (s *Sim) Run() {
 			s.ForkCheck(resume)
 		}
 	}
+	if s.Mode.StaleWrites {
+		s.statusUpdateRace()
+	}
 	if s.Mode.OnFinish != nil {
 		s.Mode.OnFinish(s)
 	}
@@ -472,6 +475,80 @@ func (s *Sim) opStaleWrite(side int) {
 	r.Logf("%s: %s via the secondary (start-up) handle", nm(side), what)
 	if s.Mode.ForkReload == 0 {
 		s.ForkCheck(false)
+	}
+}
+
+// statusUpdateRace: the last event of a history. The node decides to go on
+// chain while its link is still live: the chain arbitrator marks the channel
+// borked through ITS handle on the channel record (MarkBorked, the first thing
+// a force close does) and the link, on its own handle, makes a commitment
+// update durable at the same moment. Scheduling point: the entry of every
+// database transaction of the status call after its first - if the call
+// reads in one transaction and writes in another, the link's write lands in
+// between. Whatever the interleaving, a reload must show everything the link
+// made durable (the status flag apart): the secret of the revoked commitment
+// has been released. No draw (older tapes keep their layout): the side is the
+// first one with a revoke or a signature due.
+func (s *Sim) statusUpdateRace() {
+	r, m := s.R, s.M
+	for x := 0; x < 2; x++ {
+		kind := ""
+		switch {
+		case s.P[x].Stale == nil:
+		case m.S[x].LocalTip != nil:
+			kind = "revoke"
+		case m.Owes(x) && m.HasWindow(x):
+			kind = "sign"
+		}
+		if kind == "" {
+			continue
+		}
+		kv := s.P[x].KV
+		txs, fired := 0, false
+		kv.OnTx = func(bool) {
+			txs++
+			if txs < 2 || fired {
+				return
+			}
+			fired = true
+			if kind == "revoke" {
+				s.opRevoke(x, false)
+			} else {
+				s.opSign(x, false)
+			}
+			r.Count("fault_link_write_between_two_txs_of_a_status_update")
+		}
+		err := s.P[x].Stale.MarkBorked()
+		kv.OnTx = nil
+		if err != nil {
+			r.Fail("stale-handle-write", "%s: MarkBorked through the node's secondary handle fails: %v", nm(x), err)
+		}
+		r.Count("probe_status_update_race_at_end")
+		// (one transaction: nothing can land inside it; a link write AFTER it
+		// is refused by design - "cannot mutate borked channel" - so none is
+		// attempted: the link's pending step stays for the wind-down)
+		strip := func(d []string) []string {
+			var o []string
+			for _, l := range d {
+				if i := strings.Index(l, " status="); i >= 0 {
+					l = l[:i]
+				}
+				o = append(o, l)
+			}
+			return o
+		}
+		fp := s.ForkParty(x)
+		got, want := strip(durableDigest(fp.Chan.State())), strip(durableDigest(s.P[x].Chan.State()))
+		fp.KV.Close()
+		// the decision is taken back (the history goes on to its wind-down)
+		if err := s.P[x].Stale.ClearChanStatus(channeldb.ChanStatusBorked); err != nil {
+			r.Fail("stale-handle-write", "%s: ClearChanStatus through the node's secondary handle fails: %v", nm(x), err)
+		}
+		if d := diffDigest(want, got); d != "" {
+			r.Fail("status-update-rolls-back", "%s: MarkBorked through the node's second handle raced with the link's %s; after a reload the channel differs from what the link made durable: %s",
+				nm(x), kind, d)
+		}
+		return
 	}
 }
 
